@@ -170,9 +170,51 @@ end module m
 """
 
 
+M_PRINT = """
+module m
+  implicit none
+contains
+  subroutine k(n, s2, a1)
+    integer, intent(in) :: n
+    real, intent(in) :: s2, a1(n)
+    print *, 'x', s2, a1(n)
+  end subroutine k
+end module m
+"""
+
+M_INTERNAL_CASE = """
+module m
+  implicit none
+contains
+  subroutine k(n, a1, s2)
+    integer, intent(in) :: n
+    real, intent(in) :: a1(n)
+    real, intent(inout) :: s2
+    call isub(n, a1, s2)
+  contains
+    Subroutine isub(nn, xin, Sout)
+      integer, intent(in) :: nn
+      REAL, INTENT(in) :: XIN(nn)
+      real, intent(inout) :: sout
+      integer :: II
+      do ii = 1, NN
+        sout = Sout + xin(II)*0.25
+      end do
+    end subroutine isub
+  end subroutine k
+end module m
+"""
+
+
 def _T():
     import loki.transformations as T   # pylint: disable=import-outside-toplevel
     return T
+
+
+def _clone_print(sf):
+    r = sf['k']
+    new = r.clone(name='k2')       # clone() rescopes the symbols of the copy -- except those inside PRINT
+    r.parent.contains.append(new)
 
 
 def _outline(sf):
@@ -208,6 +250,9 @@ WITNESSES = [
     ('flatten_arrays', M_FLAT, lambda sf: _T().flatten_arrays(sf['k'])),
     ('do_constant_propagation', M_CONST, lambda sf: _T().do_constant_propagation(sf['k'])),
     ('inline_constant_parameters', M_CONST, lambda sf: _T().inline_constant_parameters(sf['k'], external_only=True)),
+    ('print_stmt(clone)', M_PRINT, _clone_print),
+    ('print_stmt(rename)', M_PRINT, lambda sf: _T().rename_variables(sf['k'], symbol_map={'s2': 's2_r'})),
+    ('inline_internal_procedures(case)', M_INTERNAL_CASE, lambda sf: _T().inline_internal_procedures(sf['k'])),
 ]
 
 TWICE = [
